@@ -152,6 +152,12 @@ class K14a(Harness):
             val = int(text[i + len(key): text.find("]", i)]) if i >= 0 else None
             clauses.append(("summary_count_" + sname, val == sum(1 for s in S if s[3] == sname)))
 
+        word_error = " ERROR " in text
+        clauses.append(("summary_says_error_only_with_error_violation", Implies(word_error, nerr > 0)))
+        clauses.append(("summary_error_goes_to_stderr", (std is None) == word_error))
+        only_builtin = all(s[3] in ("Error", "Warning") for s in S)
+        clauses.append(("summary_word_builtin_severities", Implies(only_builtin, word_error == (nerr > 0))))
+
         # ---- JSON entry
         dj = rl.extract_violation_dictionary()["violations"]
         got = [(d["rule"], d["linenumber"], d["solution"], d["severity"]) for d in dj]
